@@ -208,7 +208,13 @@ func (x *cpuRun) peekAround(rs regset, nn uint16, n uint8) {
 // one instruction from a set state, stepped cycle by cycle until the next boundary
 func (x *cpuRun) instr(prefixed bool, op uint8, rs regset, op1, op2 uint8, tagReads bool) int {
 	x.do("reset")
-	x.do("irq 00 00 0")
+	// IME set or clear, some sources enabled, others requested - but none both (no dispatch): an instruction's effect
+	// and length must not depend on them
+	{
+		r := x.c.rng
+		ie := []int{0x00, 0x00, 0x15, 0x0a, 0x1f}[r.intn(5)]
+		x.do(fmt.Sprintf("irq %02x %02x %d", ie, ^ie&0x1f&int(r.byte()), r.intn(2)))
+	}
 	pc := rs.pc
 	if prefixed {
 		x.do(fmt.Sprintf("poke %04x cb", pc))
@@ -580,6 +586,7 @@ func cpuGenIntr(c *ctx, x *cpuRun) {
 		{0xe0, 0xff}, // LDH (FF),A   write IE
 		{0x3e, 0x00}, // LD A,00
 		{0xf0, 0x0f}, // LDH A,(0F)
+		{0xcb, 0x40}, // BIT 0,B      (a CB-prefixed instruction right after EI / DI)
 	}
 	maxLen := 3
 	if c.thorough() {
